@@ -71,35 +71,51 @@ func VerifC12CrashDuringWrite() {
 	}
 	nw := vrt.Param("W")
 	sizes := [...]int{3, 8, 9, 70}
-	type done struct{ i, sz int }
+	type done struct {
+		p  string
+		sz int
+	}
 	var succeeded []done
 	szOf := map[string]int{}
 	// bytes already in each inode when the write of the object at path p started
 	before := map[string][]int{}
+	reput := vrt.Bool("secondWriteRepeatsTheFirstObject")
 	crashed := vrt.Run(func() {
 		for i := 0; i < nw; i++ {
 			sz := sizes[vrt.Choice("size", len(sizes))]
 			p := "/root/obj" + strconv.Itoa(i)
-			szOf[p] = sz
-			var snap []int
-			for _, ino := range c13.inodes {
-				snap = append(snap, ino.written)
+			if i > 0 && reput {
+				// the same object is put again (same address, same bytes)
+				i0 := 0
+				p = "/root/obj" + strconv.Itoa(i0)
+				sz = szOf[p]
 			}
-			before[p] = snap
+			szOf[p] = sz
+			if _, again := before[p]; !again {
+				var snap []int
+				for _, ino := range c13.inodes {
+					snap = append(snap, ino.written)
+				}
+				before[p] = snap
+			}
 			// the writer of a combined file may still be waiting for its batch when the next one arrives
 			c13defer = i < nw-1 && vrt.Bool("nextWriterArrivesBeforeTheTimer")
 			c13waiting = nil
-			err := w.writeData(c13id(i), p, make([]byte, sz))
+			id := c13id(i)
+			if i > 0 && reput {
+				id = c13id(0)
+			}
+			err := w.writeData(id, p, make([]byte, sz))
 			c13defer = false
 			if err == nil {
-				succeeded = append(succeeded, done{i, sz})
+				succeeded = append(succeeded, done{p, sz})
 			}
 		}
 		_ = w.finalize()
 	})
 	c13defer = false
 	for _, d := range succeeded {
-		p := "/root/obj" + strconv.Itoa(d.i)
+		p := d.p
 		idx, linked := c13.links[p]
 		vrt.Assert(linked, "a write that had reported success is found at its path after the crash")
 		if linked {
